@@ -1,4 +1,5 @@
 import XalanModel.C17.Counters
+import XalanModel.Generated.C17_NavShape
 /-!
 # C17 — navigation half of `xsl:number` (ElemNumber.cpp)
 
@@ -129,13 +130,31 @@ def countList (target prev : Nat → Option Nat) (after : Nat → Nat → Bool) 
     (r2.1, r.2 :: r2.2)
 
 /-- counting part of `ElemNumber::getCountString` (no `value`): the number list for context node `src`.
-For `level="any"` a zero count produces no output (`if (theNumber != 0)`), i.e. the empty list. -/
-def getCountList (d : Doc) (c : NumCfg) (after : Nat → Nat → Bool) (cs : List Counter) (src : Nat) :
-    List Counter × List Nat :=
+`zeroPrintsNothing` = the `level="any"` branch guards `formatNumberList` with `if (theNumber != 0)`, so a zero
+count produces no output (the empty list); without the guard the list `[0]` is formatted. -/
+def getCountListZ (zeroPrintsNothing : Bool) (d : Doc) (c : NumCfg) (after : Nat → Nat → Bool) (cs : List Counter)
+    (src : Nat) : List Counter × List Nat :=
   let r := countList (getTargetNode d c) (getPreviousNode d c) after cs (countTargets d c src)
   match c.level with
-  | .any => (r.1, r.2.filter (· ≠ 0))
+  | .any => if zeroPrintsNothing then (r.1, r.2.filter (· ≠ 0)) else r
   | _ => r
+
+/-- `getCountString` on a document with attribute nodes (`Doc.withAttrs`), context node possibly an attribute.
+`domParent` = the `level="any"` walk of `getPreviousNode` steps to the parent with `pos->getParentNode()`, which is
+null for an attribute: the walk from an attribute node ends at once (with `DOMServices::getParentOfNode` it
+continues at the element, which is what `d.parent` of `withAttrs` gives). -/
+def getCountListA (domParent zeroPrintsNothing : Bool) (d : Doc) (c : NumCfg) (after : Nat → Nat → Bool)
+    (cs : List Counter) (src : Nat) : List Counter × List Nat :=
+  let prev : Nat → Option Nat := fun n => if domParent ∧ d.size ≤ n then none else getPreviousNode d c n
+  let r := countList (getTargetNode d c) prev after cs (countTargets d c src)
+  match c.level with
+  | .any => if zeroPrintsNothing then (r.1, r.2.filter (· ≠ 0)) else r
+  | _ => r
+
+/-- `getCountString` as the current source has it (`Generated.C17.anyZeroPrintsNothing` is read from it) -/
+def getCountList (d : Doc) (c : NumCfg) (after : Nat → Nat → Bool) (cs : List Counter) (src : Nat) :
+    List Counter × List Nat :=
+  getCountListZ XalanModel.Generated.C17.anyZeroPrintsNothing d c after cs src
 
 /-! ## Well-formedness of the navigation functions (checked by the driver on every document) -/
 
@@ -180,6 +199,13 @@ def Doc.ofParents (ps : List Int) : Doc :=
       if i < ps.length then
         (List.range ps.length).foldl (fun acc j => if par j = some i then some j else acc) none
       else none }
+
+/-- The same document with its attribute nodes added as numbers `size, size+1, …` (document order of the
+attributes); `owners[j]` is the element that carries attribute `size + j`.  An attribute has no siblings and no
+children; its parent (`DOMServices::getParentOfNode`) is its element.  `size`, and everything about the numbers
+below it, is unchanged — the theorems about `0 … size-1` are about the same functions. -/
+def Doc.withAttrs (d : Doc) (owners : List Nat) : Doc :=
+  { d with parent := fun i => if i < d.size then d.parent i else owners[i - d.size]? }
 
 theorem Doc.ofParents_closed (ps : List Int) : (Doc.ofParents ps).Closed := by
   intro n hn
